@@ -1162,6 +1162,188 @@ ALIAS_BOUNDARY = [
 ]
 
 
+
+# ------------------------------------------------------------------------------------------------
+# the lock: every operation of the model is one atomic step.  A wrapping lock installed on the zone counts the
+# critical sections of each call and lets a complete concurrent operation (what another thread would do the moment
+# the lock is free) run at any release point inside the call.
+# ------------------------------------------------------------------------------------------------
+class HookLock:
+    def __init__(self, real):
+        self.real = real
+        self.acquires = 0
+        self.releases = 0
+        self.fire_at = None  # index of the release after which `hook` runs (once)
+        self.hook = None
+        self.trace = []
+
+    def acquire(self, *a, **kw):
+        r = self.real.acquire(*a, **kw)
+        self.acquires += 1
+        self.trace.append("acquire")
+        return r
+
+    def release(self):
+        self.real.release()
+        self.trace.append("release")
+        k = self.releases
+        self.releases += 1
+        if self.hook is not None and self.fire_at == k:
+            hook, self.hook = self.hook, None
+            self.trace.append("<concurrent operation runs here>")
+            hook()
+
+    def locked(self):
+        return self.real.locked()
+
+    def __enter__(self):
+        self.acquire()
+        return self
+
+    def __exit__(self, *exc):
+        self.release()
+        return False
+
+
+def lockhook_once(case, at):
+    """prefix (plain), then `op` with `hook` tokens run as one concurrent burst right after release number `at`
+    inside the call (None: no hook).  Returns (run, lock, prefix outs, op out, state at hook start, hook outs)."""
+    run = Run(case["zone"])
+    pre = []
+    for tok in case["prefix"]:
+        out = run.apply(tok)
+        pre.append(f"{out}|{run.state_tok()}")
+    lock = HookLock(run.zone._version_lock)
+    run.zone._version_lock = lock
+    mid = {}
+    houts = []
+
+    def hook():
+        mid["state"] = run.state_tok()
+        for tok in case["hook"]:
+            out = run.apply(tok)
+            houts.append(f"{out}|{run.state_tok()}")
+
+    if at is not None:
+        lock.fire_at, lock.hook = at, hook
+    out = run.apply(case["op"])
+    return run, lock, pre, out, mid.get("state"), houts
+
+
+def close_all(run):
+    for t in list(run.zone._readers):
+        try:
+            t.rollback()
+        except Exception:  # noqa: BLE001
+            pass
+
+
+def eval_lockhook(ctx: Ctx, case: dict):
+    zk = case["zone"]
+    op = case["op"]
+    fails = []
+    # 1. how many critical sections does the call have?  (the model: one)
+    run0, lock0, _, out0, _, _ = lockhook_once(case, None)
+    n_acq, n_rel = lock0.acquires, lock0.releases
+    close_all(run0)
+    ctx.count(f"lockhook.{zk}.sections.{op[0:2] if op[0] == 'o' else op[0]}={n_acq}")
+    if not out0.startswith("E"):
+        ctx.corr(f"c11.sections {op}", f"ok {n_acq}", case)
+    # 2. a complete concurrent operation at every release point inside the call
+    points = range(n_rel) if case.get("at") is None else [case["at"]]
+    for at in points:
+        run, lock, pre, out, mid, houts = lockhook_once(case, at)
+        z = run.zone
+        what_at = f"{op} with [{' '.join(case['hook'])}] run by another thread right after release #{at + 1} of _version_lock inside the call"
+        local = []
+        if lock.hook is not None:
+            close_all(run)
+            continue  # the release point was not reached this time
+        if out.startswith("X") or any(h.startswith("X") for h in houts):
+            local.append((f"C11/{zk}/interleaved/raises", f"{out} / {houts}"))
+        monitor(run, "O0", out, (list(z._versions), run.policy), local)
+        if op[0] == "o" and out.startswith("P"):
+            vid = int(out[1:].split(":")[0])
+            ids = [v.id for v in z._versions]
+            if vid not in ids:
+                local.append((f"C11/{zk}/pinned-retained", f"version {vid} handed to the reader is not retained ({ids})"))
+            try:
+                z.reader(id=vid).rollback()
+            except KeyError:
+                local.append((f"C11/{zk}/pinned-retained", f"reader(id={vid}) raises KeyError while the first reader on version {vid} is still open (retained {ids})"))
+            sn = serial_of(run.readers[int(op[2:].split(':')[0])].version, z)
+            if sn is not None:
+                try:
+                    r2 = z.reader(serial=sn)
+                    if r2.version.id < vid:
+                        local.append((f"C11/{zk}/reader-lookup", f"reader(serial={sn}) opened {r2.version.id}, older than the pinned version {vid} with that serial"))
+                    r2.rollback()
+                except KeyError:
+                    local.append((f"C11/{zk}/pinned-retained", f"reader(serial={sn}) raises KeyError while version {vid} with that serial is pinned"))
+        for sig, what in local:
+            fails.append((sig, f"{what_at}: {what}", at, list(lock.trace)))
+        # 3. the model, in lock-acquisition order: the call is one section, so everything the other thread did comes after it
+        if n_acq == 1 and n_rel == 1 and mid is not None and not local:
+            toks = case["prefix"] + [op] + case["hook"]
+            ctx.corr("c11.run " + " ".join(toks), " ".join(["ok"] + pre + [f"{out}|{mid}"] + houts), case)
+        close_all(run)
+        ctx.count(f"lockhook.{zk}.interleavings")
+    seen = set()
+    for sig, what, at, trace in fails:
+        if sig not in seen:
+            seen.add(sig)
+            ctx.fail(sig, what, {"kind": "lockhook", "case": dict(case, at=at), "interleaving": trace})
+    return [(s_, w) for s_, w, _, _ in fails]
+
+
+def gen_lockhook(rng, zk):
+    base = executable(gen_history(rng, zk))
+    ops = base["ops"][: rng.choice([0, 2, 4, 8, 12])]
+    # replay the prefix to know what is open
+    run = Run(zk)
+    for t in ops:
+        run.apply(t)
+    open_h = sorted(run.open_dump)
+    writer_open = run.wtxn is not None
+    ids = [v.id for v in run.zone._versions]
+    serials = [s_ for s_ in (serial_of(v, run.zone) for v in run.zone._versions) if s_ is not None]
+    close_all(run)
+    x = rng.below(10)
+    if x < 5:
+        op = "oL90"
+    elif x < 7:
+        op = f"oI90:{rng.choice(ids)}"
+    elif x < 8 and serials:
+        op = f"oS90:{rng.choice(serials)}"
+    elif x < 9 and open_h:
+        op = f"c{rng.choice(open_h)}"
+    else:
+        op = rng.choice(["M1", "M2", "Pnone", "Mnone"])
+    if not writer_open:
+        hook = ["w", f"C{900 + rng.below(50)}:{rng.choice(['-', '5', '6'])}:1"]
+        if rng.chance(1, 3):
+            hook += ["w", f"C{950 + rng.below(40)}:7:1"]
+    else:
+        hook = [rng.choice(["M1", "Pnone"])]
+    cand = [h for h in open_h if not (op[0] == "c" and int(op[1:]) == h)]
+    if cand and rng.chance(1, 3):
+        hook.append(f"c{rng.choice(cand)}")
+    return {"kind": "lockhook", "zone": zk, "prefix": ops, "op": op, "hook": hook}
+
+
+LOCKHOOK_BOUNDARY = [
+    # a commit lands while reader() is running (default policy: everything below the pins goes)
+    {"prefix": ["w", "C1:1:1"], "op": "oL90", "hook": ["w", "C2:2:1"]},
+    {"prefix": ["w", "C1:1:1"], "op": "oI90:2", "hook": ["w", "C2:2:1", "w", "C3:3:1"]},
+    {"prefix": ["w", "C1:5:1"], "op": "oS90:5", "hook": ["w", "C2:6:1"]},
+    # a commit lands while another reader is being closed / the policy is being changed
+    {"prefix": ["oL1", "w", "C1:1:1", "oL2"], "op": "c1", "hook": ["w", "C2:2:1", "c2"]},
+    {"prefix": ["Mnone", "w", "C1:1:1", "w", "C2:2:1", "oI1:2"], "op": "M1", "hook": ["w", "C3:3:1"]},
+    # a reader is opened while a commit is in progress
+    {"prefix": ["w"], "op": "C1:1:1", "hook": ["oL90", "M1"]},
+]
+
+
 class Hang(BaseException):
     pass
 
